@@ -3,7 +3,7 @@
    formats (JUnit XML, `go test -v` output), Please reports the same test cases with the same outcome counts.  A test
    target is reported as passing exactly when every case passed or was skipped within its flakiness allowance."
    This file holds only the statement, the property theorems and their non-vacuity examples. *)
-From PlzV Require Import Base.Harness Model.C26 Proof.C26 Proof.C26_followup.
+From PlzV Require Import Base.Harness Model.C26 Proof.C26 Proof.C26_followup Proof.C26_followup2.
 From Coq Require Import Permutation.
 
 Definition C26_statement : Prop :=
@@ -66,7 +66,36 @@ Theorem C26_partial_followup : followup_statement.
 Proof. exact followup_statement_holds. Qed.
 Print Assumptions C26_partial_followup.
 
+(* Follow-up 2: (1) a results file of length zero - alone, or as one shard of a results directory, whatever the exit
+   status - is rejected by the loop of parseTestResults (regenerated statement by statement as Gen.results_step): the
+   attempt is reported as the synthetic errored case, and a target all of whose attempts left such a file is never
+   reported as passing, for every allowance and number of attempts.  (2) For every history of invocations of an
+   unchanged target, with and without test arguments (the guards of cacheOutputFiles / needToRun are regenerated as
+   Gen.cache_refused / Gen.need_run_forced), every invocation WITHOUT arguments reports what a first or a second
+   invocation of the complete test reports - never what an argument-restricted run left - and reports the target as
+   passing only if the complete test passes. *)
+Theorem C26_partial_followup2 : followup2_statement.
+Proof. exact followup2_statement_holds. Qed.
+Print Assumptions C26_partial_followup2.
+
 (* Non-vacuity. *)
+Example C26_nonvacuous_empty_shard :
+  first_report (s "t") false 1 [w_empty_shard] = [mkCase [] (s "t") [eErr]]
+  /\ counters (first_report (s "t") false 1 [w_empty_shard]) = [1; 0; 0; 0; 1; 0]%N
+  /\ all_succeeded (first_report (s "t") false 1 [mkAttempt false [DEmpty]]) = false.
+Proof. exact empty_shard_witness. Qed.
+
+Example C26_nonvacuous_argument_history :
+  Forall (plain_is_full w_full_ok) [mkInv true w_sub; mkInv false w_full_ok; mkInv true w_sub; mkInv false w_full_ok]
+  /\ map (fun r => (counters (fst r), all_succeeded (fst r), snd r))
+      (run_history (s "t") false 1 t_init [mkInv true w_sub; mkInv false w_full_ok; mkInv true w_sub; mkInv false w_full_ok])
+  = [([1; 1; 0; 0; 0; 0]%N, true, false); ([2; 1; 0; 0; 0; 1]%N, true, false);
+     ([1; 1; 0; 0; 0; 0]%N, true, false); ([2; 1; 0; 0; 0; 1]%N, true, true)].
+Proof.
+  split; [|exact (proj2 argument_history_witness)].
+  repeat constructor; intros H; try discriminate H; reflexivity.
+Qed.
+
 Example C26_nonvacuous_pairs :
   joined w_join_a = joined w_join_b /\ key w_join_a <> key w_join_b
   /\ add_all [] [w_join_a; w_join_b] = [w_join_a; w_join_b]
